@@ -130,12 +130,49 @@ Example C14_compiled_programs :
         OL [OL [OL [term_obs ss]; OL [term_obs ss]]]; onat 6].
 Proof. split; vm_compute; reflexivity. Qed.
 
+(* control constructs around the updates (round 5; DbProg: GCut / GFail / GOr / GIf, GNot, GIfThen): the search, the
+   database, the Answer identities and the allocation counter go through the branches that a cut or a commit
+   discards - what they wrote stays.
+   (1) the counter with a cut   t :- retract(c(N)), !, N1 = s(N), assertz(c(N1)).   over c(0), c(5): each call bumps
+       exactly ONE counter (the retract goal is left suspended after its first answer) and terminates;
+   (2) m :- ( p(X) -> retract(p(X)) ; assertz(p(a)) ).   toggles: three calls leave p(a);
+   (3) m :- \+ p(_), assertz(p(1)).   stores once: the second call fails;
+   (4) m :- \+ ( assertz(p(1)), !, fail ), p(X), assertz(q(X)).  m :- assertz(q(2)).   the cut under \+ is local (the second
+       clause of m still runs), and p(1), written by the goal of the \+, is there afterwards. *)
+Example C14_compiled_control_programs :
+  let p x := TFun (d "p") [x] in let c x := TFun (d "c") [x] in let q x := TFun (d "q") [x] in
+  let s x := TFun (d "s") [x] in let one := [OL []] in
+  run_prog 100 50 1000
+    [mkcl (d "init") 0 [] [GAssert false (c (TInt 0)); GAssert false (c (TInt 5))];
+     mkcl (d "t") 2 [] [GRetract (c (TVar 0)); GCut; GUnify (TVar 1) (s (TVar 0)); GAssert false (c (TVar 1))]]
+    [(d "init", [], 0); (d "t", [], 0); (d "t", [], 0)] [(d "c", 1)]
+  = OL [OL [otag "answers" [OL one]; otag "answers" [OL one]; otag "answers" [OL one]];
+        OL [OL [OL [term_obs (s (TInt 0))]; OL [term_obs (s (TInt 5))]]]; onat 4] /\
+  run_prog 100 50 1000
+    [mkcl (d "m") 1 [] [GIf [GCall (d "p") [TVar 0]] [GRetract (p (TVar 0))] [GAssert false (p (TAtom (d "a")))]]]
+    [(d "m", [], 0); (d "m", [], 0); (d "m", [], 0)] [(d "p", 1)]
+  = OL [OL [otag "answers" [OL one]; otag "answers" [OL one]; otag "answers" [OL one]];
+        OL [OL [OL [term_obs (TAtom (d "a"))]]]; onat 2] /\
+  run_prog 100 50 1000
+    [mkcl (d "m") 1 [] [GNot [GCall (d "p") [TVar 0]]; GAssert false (p (TInt 1))]]
+    [(d "m", [], 0); (d "m", [], 0)] [(d "p", 1)]
+  = OL [OL [otag "answers" [OL one]; otag "answers" [OL []]]; OL [OL [OL [term_obs (TInt 1)]]]; onat 1] /\
+  run_prog 100 50 1000
+    [mkcl (d "m") 1 [] [GNot [GAssert false (p (TInt 1)); GCut; GFail]; GCall (d "p") [TVar 0]; GAssert false (q (TVar 0))];
+     mkcl (d "m") 1 [] [GAssert false (q (TInt 2))]]
+    [(d "m", [], 0)] [(d "p", 1); (d "q", 1)]
+  = OL [OL [otag "answers" [OL [OL []; OL []]]];
+        OL [OL [OL [term_obs (TInt 1)]]; OL [OL [term_obs (TInt 1)]; OL [term_obs (TInt 2)]]]; onat 3].
+Proof. repeat split; vm_compute; reflexivity. Qed.
+
 (* ---- TRACE INCLUSION: every run of compiled code IS a history of the cursor machine ----
    (Engine/DbProgSim.v)  For every program whose clauses mention only their own variables (prog_ok), every body,
    bindings and global state that satisfy C13's invariant (cinv; it holds when a query starts and is preserved:
    C13_compiled_invariant), every fuel: there is a history evs of EStart / ENext / EClose / EAssert / ERetractAll events -
    a goal reached at nesting depth d is the generator d, started with the dereferenced goal, one ENext per answer
-   with the events of the rest of the body in between, a last ENext that returns StopIteration - that the cursor
+   with the events of the rest of the body in between, a last ENext that returns StopIteration, EClose d; a goal whose
+   loop is left by a cut or by the commit of an if-then-else (-> / \+) is closed while suspended: EClose d without the
+   last ENext - that the cursor
    machine (with the concrete matching function match_fact, same fuel) runs from the same database and identity
    counter (Rst) to the same database and identity counter, and whose database outputs (dbouts: the outputs without
    OStart / OEnd / OClosed) are the trace of the compiled run, event by event: equal for stored facts (OIns) and
@@ -172,7 +209,10 @@ Theorem C14_compiled_history_no_lost_update : forall uf prog, prog_ok prog -> fo
 Proof. exact prog_history_no_lost_update. Qed.
 Print Assumptions C14_compiled_history_no_lost_update.
 
-(* non-vacuity of the hypotheses: the program  t(X) :- assertz(p(1)), p(X), assertz(p(2)).  and the query t(X0) *)
+(* non-vacuity of the hypotheses: the program  t(X) :- assertz(p(1)), p(X), assertz(p(2)).  and the query t(X0);
+   and a run with a cut, an if-then-else and a negation: the body  assertz(c(0)), assertz(c(5)), t  with
+   t :- retract(c(N)), !, ( \+ c(N) -> assertz(c(s(N))) ; true ).   has one answer, 4 trace entries (2 OIns, ORet, OIns;
+   no OAns: c(0) is gone and c(5) does not match when \+ c(0) asks), ends with flag None and leaves c(5), c(s(0)) *)
 Ltac tin_small := intros w Hw; do 8 (destruct w as [|w]; [try reflexivity; simpl in Hw; discriminate|]); simpl in Hw; discriminate.
 Example C14_compiled_history_nonvacuous :
   let p x := TFun (d "p") [x] in
@@ -189,4 +229,23 @@ Proof.
     + repeat constructor; simpl; try tin_small.
   - split; reflexivity.
   - eexists. eexists. eexists. split; [vm_compute; reflexivity|]. split; reflexivity.
+Qed.
+
+Example C14_compiled_history_nonvacuous_cut :
+  let c x := TFun (d "c") [x] in
+  let prog := [mkcl (d "t") 1 [] [GRetract (c (TVar 0)); GCut;
+                                  GIf [GNot [GCall (d "c") [TVar 0]]] [GAssert false (c (TFun (d "s") [TVar 0]))] []]] in
+  let gs := [GAssert false (c (TInt 0)); GAssert false (c (TInt 5)); GCall (d "t") []] in
+  prog_ok prog /\ cinv (fun _ => false) gs [] (ginit 0 1000) /\
+  exists g' a tr, solve 50 prog 100 gs [] (ginit 0 1000) = Some (g', a, tr, None) /\ length tr = 4 /\ length a = 1 /\
+    map fargs (gdb g' (d "c", 1)) = [[TInt 5]; [TFun (d "s") [TInt 0]]].
+Proof.
+  cbv zeta. split; [|split].
+  - repeat constructor; simpl; try tin_small.
+  - constructor; simpl.
+    + constructor; simpl; [intros k f []|intros w Hw; discriminate].
+    + constructor.
+    + intros v t [].
+    + repeat constructor; simpl; try tin_small.
+  - eexists. eexists. eexists. split; [vm_compute; reflexivity|]. repeat split.
 Qed.
